@@ -185,6 +185,14 @@ type OpObs struct {
 	Requests    int      `json:"requests"`
 	Err         string   `json:"err"`
 	First       string   `json:"first"` // the first write request, for the report
+	// history route (hist-*): the values in force for this operation are not the request's but what the release
+	// history carries; they are observed from a twin of the operation (same flags, dry run, gate switched off)
+	Own     bool         `json:"own"`     // the four fields below describe the values in force of THIS operation
+	TwinOk  bool         `json:"twinOk"`  // the twin ran
+	Enabled [][]string   `json:"enabled"` // instances left after ProcessDependencies
+	Finals  []Seen       `json:"finals"`  // their final values
+	Lib     []LibVerdict `json:"lib"`     // the schema library's verdict on them
+	Odd     int          `json:"odd"`
 }
 
 type LibVerdict struct {
@@ -423,6 +431,144 @@ func templateOp(c *Case, skip bool, vals map[string]interface{}) (o OpObs) {
 	return o
 }
 
+// observeFinals walks the enabled instances of a processed chart with their final values and asks the schema library.
+func observeFinals(c *Case, ch *chart.Chart, top map[string]interface{}) (enabled [][]string, finals []Seen, lib []LibVerdict, odd int) {
+	enabled, finals, lib = [][]string{}, []Seen{}, []LibVerdict{}
+	insts := c.Instances()
+	walkEnabled(ch, "", top, func(inst string, _ *chart.Chart, v map[string]interface{}) {
+		ls := Flatten(v)
+		enabled = append(enabled, splitInst(inst))
+		finals = append(finals, Seen{P: splitInst(inst), Leaves: ls})
+		odd += oddTokens(ls)
+		if def, ok := c.Charts[insts[inst]]; ok && len(def.Schema) > 0 {
+			valid, msg := libValidate(SchemaJSON(def.Schema), v)
+			lib = append(lib, LibVerdict{P: splitInst(inst), Valid: valid, Msg: msg})
+		}
+	})
+	return
+}
+
+// histOps: the history route.  A release is first made with values that were never judged by the case's schemas -
+// "skipinstall": install of the case's chart with skip-schema-validation; "laxinstall": install of the same chart,
+// same version, without its values.schema.json files - and then upgraded with the case's chart and NO new values in
+// the default / reuse-values / reset-then-reuse-values / reset-values modes.  The gate must judge the values in force
+// for the new revision, whatever their origin.
+func histOps(c *Case, tmp, only string) []OpObs {
+	out := []OpObs{}
+	lax := &Case{Charts: map[string]ChartDef{}, User: c.User, Uset: c.Uset}
+	for n, d := range c.Charts {
+		d.Schema = nil
+		lax.Charts[n] = d
+	}
+	type mode struct {
+		name           string
+		reuse, rtr, rs bool
+	}
+	modes := []mode{{"upgrade", false, false, false}, {"upgrade-reuse", true, false, false},
+		{"upgrade-reset-then-reuse", false, true, false}, {"upgrade-reset", false, false, true}} // the reset comes last
+	// the values in force do not depend on how the first revision came about (same chart version, same stored
+	// values): the twin of a mode is run once and shared
+	type twin struct {
+		ok                bool
+		err               string
+		enabled           [][]string
+		finals            []Seen
+		lib               []LibVerdict
+		odd               int
+	}
+	twins := map[string]*twin{}
+	for _, first := range []string{"skipinstall", "laxinstall"} {
+		if only != "" && only != first {
+			continue
+		}
+		e := newEnv()
+		prep := ""
+		func() {
+			defer catch(&prep)
+			vals, err := c.UserValues(tmp)
+			if err != nil {
+				prep = "values: " + err.Error()
+				return
+			}
+			src := c
+			if first == "laxinstall" {
+				src = lax
+			}
+			ch, err := src.Load(BuildOpts{Lookup: true})
+			if err != nil {
+				prep = "load: " + err.Error()
+				return
+			}
+			if _, err := newInstall(e.config(), first == "skipinstall").Run(ch, vals); err != nil {
+				prep = "first install: " + err.Error()
+			}
+		}()
+		for _, m := range modes {
+			o := OpObs{Mode: "hist-" + first + "-" + m.name, Base: "upgrade", Named: []string{}, Own: true,
+				Enabled: [][]string{}, Finals: []Seen{}, Lib: []LibVerdict{}}
+			func() {
+				defer catch(&o.Err)
+				if prep != "" {
+					o.Err = prep
+					return
+				}
+				newUp := func() *action.Upgrade {
+					up := action.NewUpgrade(e.config())
+					up.Namespace = relNS
+					up.Timeout = 5 * time.Second
+					up.ReuseValues, up.ResetThenReuseValues, up.ResetValues = m.reuse, m.rtr, m.rs
+					return up
+				}
+				// the twin: same operation as a dry run with the gate switched off shows the values in force
+				t := twins[m.name]
+				if t == nil {
+					t = &twin{}
+					twins[m.name] = t
+					func() {
+						defer catch(&t.err)
+						tch, err := c.Load(BuildOpts{Lookup: true})
+						if err != nil {
+							t.err = "load: " + err.Error()
+							return
+						}
+						tw := newUp()
+						tw.DryRun, tw.DryRunOption, tw.SkipSchemaValidation = true, "client", true
+						trel, err := tw.Run(relName, tch, map[string]interface{}{})
+						if err != nil {
+							t.err = "twin: " + err.Error()
+							return
+						}
+						top, err := chartutil.CoalesceValues(trel.Chart, trel.Config)
+						if err != nil {
+							t.err = "twin values: " + err.Error()
+							return
+						}
+						t.enabled, t.finals, t.lib, t.odd = observeFinals(c, trel.Chart, top)
+						t.ok = true
+					}()
+				}
+				if !t.ok {
+					o.Err = t.err
+					return
+				}
+				o.Enabled, o.Finals, o.Lib, o.Odd, o.TwinOk = t.enabled, t.finals, t.lib, t.odd, true
+				// the operation under test
+				ch, err := c.Load(BuildOpts{Lookup: true})
+				if err != nil {
+					o.Err = "load: " + err.Error()
+					return
+				}
+				mark, smark := e.log.len(), e.store.nw()
+				_, err = newUp().Run(relName, ch, map[string]interface{}{})
+				o.fillErr(c, err)
+				o.fillLog(e.log.from(mark), e.store.nw()-smark)
+			}()
+			out = append(out, o)
+		}
+	}
+	return out
+}
+
 // Run14 runs one C14 case on the real code.
 func Run14(cf CaseFile, tmp string) Obs14 {
 	o := Obs14{ID: cf.ID, Shape: cf.Shape, Case: cf.Case, Enabled: [][]string{}, Finals: []Seen{}, Lib: []LibVerdict{}, Ops: []OpObs{}}
@@ -454,17 +600,7 @@ func Run14(cf CaseFile, tmp string) Obs14 {
 			return
 		}
 		top, _ := asMap(map[string]interface{}(rv["Values"].(chartutil.Values)))
-		insts := c.Instances()
-		walkEnabled(ch, "", top, func(inst string, _ *chart.Chart, v map[string]interface{}) {
-			ls := Flatten(v)
-			o.Enabled = append(o.Enabled, splitInst(inst))
-			o.Finals = append(o.Finals, Seen{P: splitInst(inst), Leaves: ls})
-			o.Odd += oddTokens(ls)
-			if def, ok := c.Charts[insts[inst]]; ok && len(def.Schema) > 0 {
-				valid, msg := libValidate(SchemaJSON(def.Schema), v)
-				o.Lib = append(o.Lib, LibVerdict{P: splitInst(inst), Valid: valid, Msg: msg})
-			}
-		})
+		o.Enabled, o.Finals, o.Lib, o.Odd = observeFinals(&c, ch, top)
 		o.PrepOk = true
 	}()
 	vals := func() map[string]interface{} { // a fresh copy for every operation
@@ -498,7 +634,13 @@ func Run14(cf CaseFile, tmp string) Obs14 {
 		// the same operations through the command line (flag parsing and wiring of pkg/cmd)
 		o.Ops = append(o.Ops, cliOps(&c, lintDir, tmp, allValid, cf.CliFlag)...)
 	}
+	if cf.Hist {
+		o.Ops = append(o.Ops, histOps(&c, tmp, cf.HistFirst)...)
+	}
 	for i := range o.Ops {
+		if o.Ops[i].Enabled == nil {
+			o.Ops[i].Enabled, o.Ops[i].Finals, o.Ops[i].Lib = [][]string{}, []Seen{}, []LibVerdict{}
+		}
 		if o.Ops[i].Base == "" {
 			o.Ops[i].Base = o.Ops[i].Mode
 		}
